@@ -204,15 +204,18 @@ def check_one(ctx, apkmod, rng, entries0, situation, comment, kinds, sample=Fals
                           W(name=n, got_len=len(d), want_len=len(content[n]), got_head=bytes(d[:32]), want_head=content[n][:32]))
     # --- missing entries
     for n in absent_probes(rng, names):
-        ctx.count("get_file_absent")
-        try:
-            d = a.get_file(n)
-        except FileNotPresent:
-            continue
-        except Exception as e:
-            ctx.violation("missing-entry-raises-other", "get_file(absent name) raises something else than FileNotPresent", W(name=n, exc=exc_str(e)))
-            continue
-        ctx.violation("missing-entry-returns-data", "get_file(absent name) returns instead of raising FileNotPresent", W(name=n, got_len=len(d)))
+        # asked twice in a row: a caller that caught the first FileNotPresent and retries gets the same answer
+        for attempt in ("", "-on-the-second-request"):
+            ctx.count("get_file_absent")
+            try:
+                d = a.get_file(n)
+            except FileNotPresent:
+                continue
+            except Exception as e:
+                ctx.violation("missing-entry-raises-other" + attempt, "get_file(absent name) raises something else than FileNotPresent", W(name=n, exc=exc_str(e)))
+                break
+            ctx.violation("missing-entry-returns-data" + attempt, "get_file(absent name) returns instead of raising FileNotPresent", W(name=n, got_len=len(d)))
+            break
     # --- DEX listing
     want_dex = [n for n in names if DEX_RE.fullmatch(n)]
     present_kinds = sorted({KIND_OF[n] for n in names if n in KIND_OF})
@@ -276,19 +279,20 @@ def check_one(ctx, apkmod, rng, entries0, situation, comment, kinds, sample=Fals
                               W(got=got_m, want=len(want_dex) > 1, dex=want_dex, lookalikes=[n for n in names if n in KIND_OF]))
     except Exception as e:
         ctx.violation("is_multidex-raises", "is_multidex() raises", W(exc=exc_str(e)))
-    try:
+    for attempt in ("", "-on-the-second-request"):
+      try:
         ctx.count("get_dex")
         d = a.get_dex()
         if "classes.dex" in content:
             if bytes(d) != content["classes.dex"]:
-                ctx.violation("get_dex-content-differs", "get_dex() is not the content of classes.dex", W(got_len=len(d), want_len=len(content["classes.dex"])))
+                ctx.violation("get_dex-content-differs" + attempt, "get_dex() is not the content of classes.dex", W(got_len=len(d), want_len=len(content["classes.dex"])))
         elif d != b"":
-            ctx.violation("get_dex-without-classes-dex-returns-data", "get_dex() returns data although there is no classes.dex", W(got_len=len(d), got_head=bytes(d[:32])))
-    except FileNotPresent as e:
+            ctx.violation("get_dex-without-classes-dex-returns-data" + attempt, "get_dex() returns data although there is no classes.dex", W(got_len=len(d), got_head=bytes(d[:32])))
+      except FileNotPresent as e:
         if "classes.dex" in content:
-            ctx.violation("get_dex-raises", "get_dex() raises although classes.dex exists", W(exc=exc_str(e)))
-    except Exception as e:
-        ctx.violation("get_dex-raises", "get_dex() raises", W(exc=exc_str(e)))
+            ctx.violation("get_dex-raises" + attempt, "get_dex() raises although classes.dex exists", W(exc=exc_str(e)))
+      except Exception as e:
+        ctx.violation("get_dex-raises" + attempt, "get_dex() raises", W(exc=exc_str(e)))
     # --- coverage signature
     nonascii = any(not n.isascii() for n in names)
     nested = any("/" in n.rstrip("/") for n in names)
